@@ -273,7 +273,7 @@ def sc_annot_ensemble(d, n, A, K, encs, voting):
             members = [(f"m{a}", models.StubClassifier(missing_label=e["missing"], n_classes=K, gen=20 + a)) for a in range(A)]
         else:
             from skactiveml.classifier import ParzenWindowClassifier
-            members = [(f"m{a}", ParzenWindowClassifier(missing_label=e["missing"])) for a in range(A)]
+            members = [(f"m{a}", ParzenWindowClassifier(missing_label=e["missing"], random_state=int(seed) + a)) for a in range(A)]
         clf = AnnotatorEnsembleClassifier(estimators=members, classes=e["classes"][:K], missing_label=e["missing"], voting=voting,
                                           random_state=seed)
         try:
